@@ -143,6 +143,17 @@ DoFinishAlone(s) ==
               !.written = @ \o [k \in 1..Len(c.confirmed) |-> [path |-> c.path, e |-> c.confirmed[k]]]]
 \* (2) a diff that merely touches the last confirmed one (starts at its end) is passed over
 CanSkipClosed(s) == s.status = "run" /\ Pending(s) /\ CurDiff(s).pos <= s.cur.end /\ s.cur.confirmed # <<>>
+\* (3) the printer remembers the edits of the LAST file it wrote only (seeded change C18-rewritten-cache-last-file-only): a
+\* document of another file arriving between two documents of one file makes the second one forget the first one's edits
+DoFinishLastOnly(s) ==
+    LET c == s.cur
+        merged == SortByPos(c.confirmed \o s.rewritten[c.path]) IN
+    [s EXCEPT !.cur = NoCur, !.acceptAll = @ \/ c.all,
+              !.disk = IF c.confirmed = <<>> THEN @ ELSE [@ EXCEPT ![c.path] = Splice(c.old, merged)],
+              !.rewritten = IF c.confirmed = <<>> THEN @ ELSE [p \in DOMAIN @ |-> IF p = c.path THEN merged ELSE <<>>],
+              !.written = @ \o [k \in 1..Len(c.confirmed) |-> [path |-> c.path, e |-> c.confirmed[k]]]]
+NextLastOnly == \/ (CanBegin(st) /\ st' = DoBegin(st)) \/ (CanSkip(st) /\ st' = DoSkip(st)) \/ (CanAuto(st) /\ st' = DoAuto(st))
+                \/ (CanKey(st) /\ st' = DoKey(st)) \/ (CanFinish(st) /\ st' = DoFinishLastOnly(st)) \/ (CanDone(st) /\ st' = DoDone(st))
 NextAlone == \/ (CanBegin(st) /\ st' = DoBegin(st)) \/ (CanSkip(st) /\ st' = DoSkip(st)) \/ (CanAuto(st) /\ st' = DoAuto(st))
              \/ (CanKey(st) /\ st' = DoKey(st)) \/ (CanFinish(st) /\ st' = DoFinishAlone(st)) \/ (CanDone(st) /\ st' = DoDone(st))
 NextClosed == \/ (CanBegin(st) /\ st' = DoBegin(st)) \/ (CanSkipClosed(st) /\ st' = DoSkip(st))
